@@ -40,8 +40,11 @@ EXTENDS Integers, Sequences, FiniteSets
 
 CONSTANTS
   ForwardInOrder,  \* [FALSE] forked events reach the target in fork order
-  AnyExact,        \* [FALSE] BindAny skips only if the target's set EQUALS the source's
-                   \*         (code: target.Is(states), i.e. superset)
+  AnyExact,        \* [TRUE since 4d48d95] BindAny skips iff the target's active set, read at
+                   \*         handler time, EQUALS the transition's target states
+                   \*         (am.StatesEqual(target.ActiveStates(nil), states));
+                   \*         FALSE: the former superset test target.Is(states)
+  AnyFresh,        \* [FALSE] ... and nothing forwarded earlier is still pending at the target
   Dedupe,          \* [TRUE]  queueMutation drops a mutation equal to a queued one (no args, no Multi)
   DedupeCounter,   \* [FALSE] ... but not when a counter-mutation is queued behind it
   RemoveShortcut,  \* [TRUE]  Remove of states that are all inactive is dropped while a
@@ -103,7 +106,8 @@ Pending(sts, fl, q, c_) ==
 (* what ONE pipe handler does, given what it can read from the target         *)
 Outcome(c, t, fl, q, c_, h) ==
   IF c.mode = "any"
-  THEN [skip |-> IF AnyExact THEN t = h.sts /\ fl = {} /\ q = <<>> /\ c_ = None
+  THEN [skip |-> IF AnyExact
+                 THEN t = h.sts /\ (AnyFresh => (fl = {} /\ q = <<>> /\ c_ = None))
                  ELSE h.sts \subseteq t,                  \* target.Is(states)
         inl  |-> ~(AnyForkRemote /\ ~c.local),            \* target.Set(...) in the handler
         args |-> h.args]
